@@ -732,7 +732,8 @@ func precededByValidation(w *World, fn *ssa.Function) bool {
 						// the callee's byte-slice argument must be the validated buffer
 						arg := ""
 						for _, a := range ev.Args {
-							if a.name() == okBuf {
+							// the buffer itself, or a reader / decoder positioned over it
+							if okBuf != "" && (a.name() == okBuf || strings.Contains(a.name(), "bytes.NewReader("+okBuf+")")) {
 								arg = a.name()
 							}
 						}
